@@ -64,8 +64,7 @@ def to_py(node):
     if k == 'float':
         return float(a)
     if k == 'enum':
-        _, cls, member = a.split('.')
-        return getattr(tv_enums, cls)[member]
+        return _enum_member(a)
     if k in ('list', 'tuple'):
         items = [to_py(x) for x in c]
         return items if k == 'list' else tuple(items)
@@ -85,6 +84,16 @@ def to_py(node):
     raise ValueError(k)
 
 
+def _enum_member(atom):
+    """'me.E1.A' / 'me.Holder.E5.A' -> the member (the class may be nested in another class)."""
+    from lv.universe import tv_enums
+    parts = atom.split('.')
+    obj = tv_enums
+    for name in parts[1:-1]:
+        obj = getattr(obj, name)
+    return obj[parts[-1]]
+
+
 def from_py(v):
     from frozendict import frozendict
     from labtech.types import is_task
@@ -93,7 +102,7 @@ def from_py(v):
     if isinstance(v, bool):
         return ['bool', str(v), []]
     if isinstance(v, Enum):
-        return ['enum', f'me.{type(v).__name__}.{v.name}', []]
+        return ['enum', f'me.{type(v).__qualname__}.{v.name}', []]
     if isinstance(v, str):
         return ['str', REAL_TO_SPEC.get(v, v), []]
     if isinstance(v, int):
@@ -123,8 +132,7 @@ def kc(node):
         kids = []
         for i, x in enumerate(c):
             if i % 2 == 0 and x[0] == 'enum':
-                _, cls, member = x[1].split('.')
-                v = getattr(tv_enums, cls)[member]
+                v = _enum_member(x[1])
                 kids.append(['str', str.__str__(v), []] if isinstance(v, str) else x)
             else:
                 kids.append(kc(x) if i % 2 else x)
